@@ -241,16 +241,26 @@ fn mat_transpose_involution() {
 
 // @ob props=C09 tier=quick kind=P cfg=core-std timeout=1800
 // @fn Mat4x4<RealToReal>::determinant
-// @clause the determinant of identity is 1, of a translation is exactly 1, and of scale(s) is the product of the diagonal (for |s| components in [2^-20, 2^20], where no intermediate overflows)
-#[cfg(not(verif_skip_mat_determinant_special_cases))]
+// @clause the determinant of the identity is exactly 1 and the determinant of every translation (|t| <= 1e6) is exactly 1
+#[cfg(not(verif_skip_mat_determinant_translation))]
 #[kani::proof]
 #[kani::unwind(6)]
-fn mat_determinant_special_cases() {
+fn mat_determinant_translation() {
     let t = vec3(any_in(-1.0e6, 1.0e6), any_in(-1.0e6, 1.0e6), any_in(-1.0e6, 1.0e6));
     kani::cover!(true);
     assert!(Mat4x4::<RealToReal<3>>::identity().determinant() == 1.0);
     assert!(translate(t).determinant() == 1.0);
+}
+
+// @ob props=C09 tier=thorough kind=P cfg=core-std timeout=5400
+// @fn Mat4x4<RealToReal>::determinant
+// @clause the determinant of scale(s) is the product of the diagonal, for |s| components up to 1e6
+#[cfg(not(verif_skip_mat_determinant_scale))]
+#[kani::proof]
+#[kani::unwind(6)]
+fn mat_determinant_scale() {
     let s = vec3(any_in(-1.0e6, 1.0e6), any_in(-1.0e6, 1.0e6), any_in(-1.0e6, 1.0e6));
+    kani::cover!(true);
     assert!(scale(s).determinant() == s.x() * (s.y() * s.z()));
 }
 
